@@ -268,14 +268,15 @@ extern int mpt_identifier_compare(const MPT_STRUCT(identifier) *id, const char *
 	if (!nlen && !id->_len) {
 		return 0;
 	}
-	if ((nlen + 1) != id->_len) {
+	/* text is stored with terminator, raw data is not */
+	if ((name ? nlen + 1 : nlen) != id->_len) {
 		return MPT_ERROR(MissingData);
 	}
 	if (id->_len > id->_max) {
 		base = id->_base;
 	}
 	if (!name) {
-		for (i = 0; i <= nlen; ++i) {
+		for (i = 0; i < nlen; ++i) {
 			if (base[i]) {
 				return i + 1;
 			}
